@@ -259,13 +259,14 @@ def strip_last_label(routine_ops: list[list[SsbOperation]]) -> list[list[SsbOper
     """
     logger.debug("Stripping last label...")
     returned_routine_ops = []
+    # Jumps can also come from other routines, so they are counted over all of them.
+    jump_counts: dict[int, int] = {}
+    for routine in routine_ops:
+        for op in routine:
+            if isinstance(op, SsbLabelJump) and op.label is not None:
+                jump_counts[op.label.id] = jump_counts.get(op.label.id, 0) + 1
     for routine in routine_ops:
         if len(routine) > 0:
-            jump_counts: dict[int, int] = {}
-            for op in routine:
-                if isinstance(op, SsbLabelJump) and op.label is not None:
-                    jump_counts[op.label.id] = jump_counts.get(op.label.id, 0) + 1
-
             while isinstance(routine[-1], SsbLabel):
                 indices_to_remove = set()
                 label = routine[-1]
@@ -284,7 +285,7 @@ def strip_last_label(routine_ops: list[list[SsbOperation]]) -> list[list[SsbOper
                     else:
                         if isinstance(op, SsbLabel):
                             # If there is a label before, then something might jump here!
-                            if jump_counts.get(op.id, 0) > 1:
+                            if jump_counts.get(op.id, 0) > 0:
                                 op_before_ends_control_flow = False
                         else:
                             op_before_ends_control_flow = does_op_end_control_flow(
